@@ -285,7 +285,20 @@ class Machine(object):
                     t = pick_title(op["col"])
                     self.invalid_ops = getattr(self, "invalid_ops", 0) + 1
                     if name == "invalid_addcolumn":
-                        cf.addcolumn(np.zeros(bad), op["name"] if op["name"] not in model else t)
+                        how = op.get("how", "long")
+                        newname = op["name"] if op["name"] not in model else t
+                        if how == "long" or nrows < 2 or newname in model:
+                            # (overwriting an existing title takes anything of the right length by design: only the length is
+                            # an argument error there)
+                            cf.addcolumn(np.zeros(bad), newname)
+                        elif how == "ragged":
+                            cf.addcolumn([[1.0, 2.0]] + [[3.0]] * (nrows - 1), newname)     # nrows entries, but no column
+                        elif how == "str":
+                            cf.addcolumn("x" * nrows, newname)
+                        elif how == "set":
+                            cf.addcolumn(set(range(nrows)), newname)
+                        else:
+                            cf.addcolumn(dict((q, q) for q in range(nrows)), newname)
                     elif name == "invalid_filter":
                         cf.filter(np.ones(bad, bool))
                     elif name == "invalid_setattr":
@@ -296,6 +309,31 @@ class Machine(object):
                             cols = [np.zeros(bad)]
                             return None
                         cf.bigarray = cols
+                elif name == "reread":
+                    # the object is used again to read a file (HDF5 or text) written from other content: afterwards it holds
+                    # what the file holds
+                    rr = random.Random(op["pseed"])
+                    tt = rr.sample(NAMES, rr.randint(1, 5))
+                    n2 = nrows if (rr.random() < 0.5 and nrows > 0) else rr.randint(1, 9)
+                    cols = [(t2, [float(rr.randint(-30, 30)) + rr.choice([0.0, 0.25, 0.5]) for _ in range(n2)]) for t2 in tt]
+                    src = self.cfm.colfile_from_dict(collections.OrderedDict((t2, np.array(v, float)) for t2, v in cols))
+                    if op["how"] == "hdf":
+                        p = os.path.join(self.scratch, "c17_rr_%d.h5" % os.getpid())
+                        if os.path.exists(p):
+                            os.remove(p)
+                        self.cfm.colfile_to_hdf(src, p, name="peaks")
+                        cf.readfile(p)
+                        want = dict((t2, fl(np.array(v, float).astype(np.int64)) if t2 in self.cfm.INTS else fl(v)) for t2, v in cols)
+                        if sorted(cf.titles) != sorted(want):
+                            return self.V("titles", "object %d after reading an HDF5 file with titles %s has titles %s" % (k, sorted(want), list(cf.titles)))
+                        new_model = collections.OrderedDict((t2, want[t2]) for t2 in cf.titles)
+                    else:
+                        p = os.path.join(self.scratch, "c17_rr_%d.flt" % os.getpid())
+                        src.writefile(p)
+                        cf.readfile(p)
+                        tab = np.loadtxt(p, comments="#", ndmin=2)
+                        new_model = collections.OrderedDict((t2, fl(tab[:, q])) for q, (t2, v) in enumerate(cols))
+                    self.rereads = getattr(self, "rereads", 0) + 1
                 elif name == "keys":
                     if list(cf.keys()) != titles:
                         return self.V("titles", "keys() %s vs %s" % (cf.keys(), titles))
@@ -321,7 +359,7 @@ def gen_ops(rnd, nops):
                ("setattr_array", 3), ("setitem_scalar", 2), ("setattr_scalar", 3), ("addcolumn_from_existing", 2),
                ("write_attr", 3), ("write_item", 2), ("write_getcolumn", 2), ("filter", 4), ("removerows", 3), ("sortby", 3),
                ("reorder", 3), ("copy", 2), ("copyrows", 3), ("get_bigarray", 4), ("set_bigarray", 2), ("keys", 1),
-               ("invalid_addcolumn", 1), ("invalid_filter", 1), ("invalid_setattr", 1), ("invalid_set_bigarray", 1)]
+               ("invalid_addcolumn", 2), ("invalid_filter", 1), ("invalid_setattr", 1), ("invalid_set_bigarray", 1), ("reread", 2)]
     names = [n for n, w in weights for _ in range(w)]
     for _ in range(nops):
         n = rnd.choice(names)
@@ -330,6 +368,10 @@ def gen_ops(rnd, nops):
             op["extra"] = rnd.randint(0, 3)
             op["col"] = rnd.randint(0, 11)
             op["name"] = rnd.choice(NAMES)
+            op["how"] = rnd.choice(["long", "long", "ragged", "str", "set", "dict"])
+        if n == "reread":
+            op["pseed"] = rnd.getrandbits(32)
+            op["how"] = rnd.choice(["hdf", "hdf", "text"])
         if n in ("addcolumn_new", "setitem_new", "addcolumn_from_existing"):
             op["name"] = rnd.choice(NAMES)
             op["asarray"] = rnd.random() < 0.8
